@@ -271,16 +271,15 @@ void line_directive_out (FILE *output_file, char *path, int linenum)
 
 	*s2 = '\0';
 
-	if (path != NULL) {
-		/* The name is text, not m4 input: quote it once more so that
-		 * it survives the rescan of the hook's expansion.
-		 */
-		char   *name_fmt = "m4_ifdef([[M4_HOOK_TRACE_LINE_FORMAT]], [[M4_HOOK_TRACE_LINE_FORMAT([[%d]], [[[[%s]]]])]])";
-
-		snprintf (directive, sizeof(directive), name_fmt, linenum, filename);
-	}
+	if (path != NULL)
+		snprintf (directive, sizeof(directive), trace_fmt, linenum, filename);
 	else {
-		snprintf (directive, sizeof(directive), trace_fmt, 0, filename);
+		/* The hook keeps its file name argument quoted, so the macro
+		 * that stands for the output file is expanded in the call.
+		 */
+		char   *out_fmt = "m4_ifdef([[M4_HOOK_TRACE_LINE_FORMAT]], [[M4_HOOK_TRACE_LINE_FORMAT([[%d]], %s)]])";
+
+		snprintf (directive, sizeof(directive), out_fmt, 0, filename);
 	}
 
 	/* If output_file is nil then we should put the directive in
